@@ -45,6 +45,10 @@ def generate(rng, tier):
             c["ts"] = sorted({2 * p + d for p in pts for d in (-1, 0, 1)})
             c["qs"] = c["qs"][:12]
             cases.append(c)
+        if regime == "K0":
+            # the same shapes on a decimal grid (0.1 s: non-dyadic doubles), queried at every bound
+            for _ in range(1500 if tier == "thorough" else 200):
+                cases.append(_case("D1", gen.rand_timeline(rng, "K0", maxn=8, span=30)))
         for _ in range(200 if tier == "thorough" else 25):
             # the same, hours or days away from the origin
             off = rng.choice(gen.FAR_SECONDS) * REGIMES[regime]["scale"]
